@@ -15,11 +15,12 @@ ASSUMPTIONS = ["private scalars of lazily skipped (flat) securities are excluded
 def plan(tier):
     n = 1200 if tier == "quick" else 12000
     return [dict(unit="w1", n=n, builds=["py", "so"], case_timeout=60), dict(unit="w1fresh", n=n // 2, builds=["py", "so"], case_timeout=60),
-            dict(unit="w2inject", n=150 if tier == "quick" else 1600, builds=["py", "so"], case_timeout=180)]
+            dict(unit="w2inject", n=150 if tier == "quick" else 1600, builds=["py", "so"], case_timeout=180),
+            dict(unit="w2injectlev", n=150 if tier == "quick" else 1600, builds=["py", "so"], case_timeout=180)]
 
 
 def floors(tier):
-    return {"min_decided": 300, "counters": {"idempotence_evals": 3000, "append_only_evals": 500, "no_future_evals": 3000, "freshness_evals": 500, "derived_read_evals": 5000, "injected_updates": 500, "injected_reads": 500, "frames_compared": 500},
+    return {"min_decided": 300, "counters": {"idempotence_evals": 3000, "append_only_evals": 500, "no_future_evals": 3000, "freshness_evals": 500, "derived_read_evals": 5000, "injected_updates": 500, "injected_reads": 500, "injected_bankrupt_runs": 8, "end_of_update_injections": 500, "frames_compared": 500},
             "max_undecided_frac": 0.4}
 
 
@@ -27,8 +28,10 @@ def classify(mech, w, drv):
     return mech
 
 
-def run_inject(cs):
-    spec = w2.gen(cs, fills=0.3)
+def run_inject(cs, lev=False):
+    # lev: flat leveraged stacks over jumping prices - the root goes bankrupt mid-run and is liquidated inside an update; redundant updates and
+    # reads on that very date must not change what is recorded for it
+    spec = w2.gen(cs, leverage=True, jumps=2, flows=False, solvers=False, late_p=0.2, nested_p=0.0) if lev else w2.gen(cs, fills=0.3)
     ctx_box = []
 
     def mk():
@@ -36,7 +39,8 @@ def run_inject(cs):
         ctx_box.append(c)
         return c
 
-    a, b, fa, fb, ta, tb = _diff.run_pair(spec, {}, mk().run_kwargs())
+    ctx_b = mk()
+    a, b, fa, fb, ta, tb = _diff.run_pair(spec, {}, ctx_b.run_kwargs(), before_b=lambda: ins.ON_UPDATE_DONE.append(ctx_b.on_update))
     sig = w2.signature(spec)
     sample = w2.sample_of(spec)
     cnt = {}
@@ -52,8 +56,11 @@ def run_inject(cs):
         return common.result(v, sig=sig, why=why, sample=sample)
     common.bump(cnt, "injected_updates", ctx.updates)
     common.bump(cnt, "injected_reads", ctx.reads)
+    common.bump(cnt, "end_of_update_injections", getattr(ctx, "end_of_update_injections", 0))
     common.bump(cnt, "frames_compared", len(fa))
     common.bump(cnt, "trades", len(ta))
+    if a.root is not None and a.root.bankrupt:
+        common.bump(cnt, "injected_bankrupt_runs")
     d = ins.first_frame_diff(fa, fb)
     nt = len(ta) >= 1 and (ctx.updates + ctx.reads) >= 3
     if d:
@@ -70,6 +77,8 @@ def run_inject(cs):
 def run_case(unit, cs, idx, build, params):
     if unit == "w2inject":
         return run_inject(cs)
+    if unit == "w2injectlev":
+        return run_inject(cs, lev=True)
     if unit == "w1fresh":
         return _w1case.run_w1(cs, [mon1.Freshness(cs), mon1.DerivedReads(cs)])
     return _w1case.run_w1(cs, [mon1.Idempotence(cs)])
